@@ -105,9 +105,29 @@ def raw_groups(groups):
 
 
 def check_case(case, ctx):
-    ds, sch = case["ds"], case["scheme"]
+    judge(case, ctx, case["ds"], None)
+    # history: a Dataset object that ParCons and the partition code have just used is mutated in place (or a dataset derived
+    # from it is) and partitioned / aggregated again: judged against the rankings it holds now
+    ds = case["ds"]
+    if not case.get("blocks") and len(ref.universe(ds)) >= 3 and case["libseed"] % 3 == 0:
+        import random
+        shared = libx.mk_dataset(ds)
+        call(ck.OrderedPartition.parcons_partition, shared, libx.mk_scheme(case["scheme"]))
+        call(lambda: ck.ParCons().compute_consensus_rankings(shared, libx.mk_scheme(case["scheme"]), True))
+        r2 = random.Random(case["libseed"])
+        kind, ok = algos.mutate_in_place(shared, ds, r2)
+        st_now, now = call(libx.raw_dataset, shared)
+        if ok and st_now == "ok" and len(ref.universe(now)) >= 2:
+            ctx.count("runs_after_in_place_mutation")
+            ctx.count("history:" + kind)
+            judge({**case, "after": kind, "original_ds": ds}, ctx, now, shared)
+
+
+def judge(case, ctx, ds, dataset):
+    sch = case["scheme"]
     common.set_case(ctx, case)
-    dataset = libx.mk_dataset(ds)
+    if dataset is None:
+        dataset = libx.mk_dataset(ds)
     scheme = libx.mk_scheme(sch)
     elems = ref.universe(ds)
     n = len(elems)
@@ -124,6 +144,8 @@ def check_case(case, ctx):
         dp = ref.optimum_dp(ds, sch, elems)
     best = dp.value
     base = {"ds": ds, "scheme": sch}
+    if case.get("after"):
+        base["after"], base["original_ds"] = case["after"], case["original_ds"]
     ctx.count("class:" + case.get("dcls", "?"))
     # -- the partition itself ---------------------------------------------------------------------
     st, part = call(ck.OrderedPartition.parcons_partition, dataset, scheme)
@@ -248,6 +270,8 @@ def reach(counters, tier, info):
                             ("consensuses flagged optimal", "flag_true", 200 * k),
                             ("consensuses not flagged optimal", "flag_false", 100 * k),
                             ("flags of other algorithms read", "other_flags", 200 * k),
+                            ("Dataset objects partitioned / aggregated again after an in-place mutation",
+                             "runs_after_in_place_mutation", 100 * k),
                             ("datasets of 11+ elements judged by the composite block oracle", "blocks_judged", 30 * k)]:
         v = counters.get(key, 0) + (counters.get("groups:4", 0) if key == "groups:3" else 0)
         out.append({"name": name, "observed": v, "required": need, "ok": v >= need})
